@@ -4,26 +4,27 @@
 # still passes on changed), runs the given checks against the changed tree, and stores it under seeded/<name>/.
 set -u
 SRC=$1; NAME=$2; PROP=$3; shift 3; CHECKS="$@"
-WT=/tmp/wt_M
+WT=${SEED_WT:-/tmp/wt_M}
+TAG=${SEED_TAG:-seed}     # several seedtests may run side by side with different SEED_WT / SEED_TAG
 [ -d $WT ] || git -C /repo worktree add -q --detach $WT HEAD
 git -C $WT checkout -q -- . ; git -C $WT clean -fdq
 export PYTHONDONTWRITEBYTECODE=1 PYTHONWARNINGS=ignore
 OUT=/verif/seeded/$NAME; mkdir -p $OUT
 cp $SRC/patch.diff $SRC/demo.py $OUT/ ; [ -f $SRC/README.md ] && cp $SRC/README.md $OUT/AGENT_README.md
-( cd $WT && PYTHONPATH=$WT timeout 600 /venv/bin/python $OUT/demo.py >/tmp/seed_demo_clean.log 2>&1 ); CLEAN=$?
+( cd $WT && PYTHONPATH=$WT timeout 600 /venv/bin/python $OUT/demo.py >/tmp/seed_demo_clean_$TAG.log 2>&1 ); CLEAN=$?
 git -C $WT apply $OUT/patch.diff || { echo "PATCH DOES NOT APPLY"; exit 2; }
-( cd $WT && PYTHONPATH=$WT timeout 600 /venv/bin/python $OUT/demo.py >/tmp/seed_demo_mut.log 2>&1 ); MUT=$?
+( cd $WT && PYTHONPATH=$WT timeout 600 /venv/bin/python $OUT/demo.py >/tmp/seed_demo_mut_$TAG.log 2>&1 ); MUT=$?
 echo "demo: clean exit=$CLEAN mutated exit=$MUT"
 ( cd $WT && PYTHONPATH=$WT timeout 1500 /venv/bin/python -m pytest -q -p no:cacheprovider --timeout=900 >/tmp/seed_suite_$NAME.log 2>&1; tail -1 /tmp/seed_suite_$NAME.log > /tmp/seed_suite_$NAME.res ) &
 SUITEPID=$!
 RES=""
 for c in $CHECKS; do
-  ( cd /verif && VERIF_BUILD_TAG=seed VERIF_REPO=$WT timeout 1500 ./check $c > /tmp/seed_check_$c.log 2>&1 ); rc=$?
-  v=$(grep -c "^VIOLATION" /tmp/seed_check_$c.log)
-  nf=$(grep -c "no-failing-input-found" /tmp/seed_check_$c.log)
+  ( cd /verif && VERIF_BUILD_TAG=$TAG VERIF_REPO=$WT timeout 1500 ./check $c > /tmp/seed_check_${TAG}_$c.log 2>&1 ); rc=$?
+  v=$(grep -c "^VIOLATION" /tmp/seed_check_${TAG}_$c.log)
+  nf=$(grep -c "no-failing-input-found" /tmp/seed_check_${TAG}_$c.log)
   echo "check $c: exit=$rc violations=$v (no-failing-input-found: $nf)"
   RES="$RES {\"check\": \"$c\", \"exit\": $rc, \"violation_lines\": $v, \"without_input\": $nf},"
-  [ $rc -ne 0 ] && cp $(grep "^VIOLATION" /tmp/seed_check_$c.log | head -1 | sed 's/.*replay=\([^ ]*\).*/\1/') $OUT/replay_$c.json 2>/dev/null
+  [ $rc -ne 0 ] && cp $(grep "^VIOLATION" /tmp/seed_check_${TAG}_$c.log | head -1 | sed 's/.*replay=\([^ ]*\).*/\1/') $OUT/replay_$c.json 2>/dev/null
 done
 wait $SUITEPID
 SUITE=$(cat /tmp/seed_suite_$NAME.res)
@@ -33,6 +34,6 @@ cat > $OUT/meta.json <<EOM
 {"name": "$NAME", "breaks_property": "$PROP", "source": "independent sub-agent given only the property text and a scratch worktree",
  "demo_exit_on_clean_tree": $CLEAN, "demo_exit_on_changed_tree": $MUT, "pinned_suite_on_changed_tree": "$SUITE",
  "checks_run_against_changed_tree": [${RES%,}],
- "how_run": "harness/seedtest.sh: git apply in scratch worktree /tmp/wt_M, demo.py, pytest, then VERIF_REPO=/tmp/wt_M ./check <id> (quick tier)"}
+ "how_run": "harness/seedtest.sh: git apply in scratch worktree, demo.py, pytest, then VERIF_REPO=<worktree> ./check <id> (quick tier)"}
 EOM
 cat $OUT/meta.json
